@@ -164,6 +164,8 @@ def realise(gtype, t0, t1, f0, f1):
     if gtype == "BoundingBox":
         return [t0, f0, t1, f1]
     if gtype == "LineString":
+        if t0 < t1 and int(t0) % 2 == 1:
+            return [[(t0 + t1) / 2, f1], [t0, f0], [t1, (f0 + f1) / 2]]  # starts in the middle, doubles back to its earliest vertex
         return [[t0, f1], [(t0 + t1) / 2, f0], [t1, (f0 + f1) / 2]]
     if gtype == "Polygon":
         return [[[t0, f0], [t1, f0], [(t0 + t1) / 2, f1]]]
@@ -238,10 +240,20 @@ def represent(iv, rep):
         return np.array([a, b], dtype=np.float32) if (float(np.float32(a)) == a and float(np.float32(b)) == b) else None
     raise ValueError(rep)
 MINOV = [0, 0.5, 1, 3]
-REALS = ["TimeStamp", "Point", "MultiPoint", "TimeInterval", "BoundingBox", "LineString", "Polygon", "MultiLineString"]
+REALS = ["TimeStamp", "Point", "MultiPoint", "TimeInterval", "BoundingBox", "LineString", "Polygon", "MultiLineString",
+         # a multi-point whose two points lie at the two ends of the extent (nothing in between), a line whose earliest vertex is an
+         # interior one, a multi-polygon of two far-apart parts: the extent is that of the whole geometry
+         "MultiPoint:ends", "LineString:back", "MultiPolygon:ends"]
 
 
 def realise_extent(kind, a, b):
+    if kind == "MultiPoint:ends":
+        return [[a, 1000], [b, 3000]] if a < b else None
+    if kind == "LineString:back":
+        return [[(a + b) / 2, 500], [a, 1000], [b, 1500]] if a < b else None
+    if kind == "MultiPolygon:ends":
+        w = (b - a) / 8
+        return [[[[a, 500], [a + w, 500], [a, 1500]]], [[[b - w, 500], [b, 500], [b, 1500]]]] if a < b else None
     if kind in ("TimeStamp", "Point", "MultiPoint") and a != b:
         return None
     if kind == "MultiLineString" and not a < b:
@@ -360,8 +372,9 @@ def run_case(case):
             out.vac("in_clip_model")
             out.klass = "clip_rejected"
             return out
-        G = mkgeom(case["kind"], case["coords"])
-        t0, _, t1, _ = gm.extent(case["kind"], case["coords"])
+        gkind = case["kind"].split(":")[0]
+        G = mkgeom(gkind, case["coords"])
+        t0, _, t1, _ = gm.extent(gkind, case["coords"])
         seen = set()
         n = 0
         prev = None
